@@ -360,7 +360,9 @@ def branch(configs, weights):
 
     base = np.random.rand() * wtot
     newinds = np.searchsorted(
-        probability, (base + np.linspace(0, wtot, nconfig, endpoint=False)) % wtot
+        probability,
+        (base + np.linspace(0, wtot, nconfig, endpoint=False)) % wtot,
+        side="right",
     )
     unique, counts = np.unique(newinds, return_counts=True)
 
